@@ -675,7 +675,8 @@ def _main(run, tier):
         run.sample({"history": list(h), "hashseed": s, "steps": [outcome(x) for x in r["steps"]]})
     # ---- S2C stage 2: generated networks with their option points
     nn = 8 if tier == "quick" else 200
-    nets = corpus.all_singles(sd) + twins(sd) + seed_family(sd) + corpus.draw(nn, sd + 14)
+    # every network costs four (quick) / nine (thorough) fresh interpreters here: sparser sample of the operator-coverage kinds
+    nets = corpus.all_singles(sd, tier=tier, rotation=18 if tier == "quick" else 3) + twins(sd) + seed_family(sd) + corpus.draw(nn, sd + 14)
     rp2 = Replayer(run, _sweep_table(os.path.join(mroot, "sweep"), nets), mroot)
     items2 = sweep_items(nets, tier)
     n2 = rp2.run_all(items2)
